@@ -48,6 +48,7 @@ SENT_MID = [b"x" + SENT, b"x " + SENT + b" TREE", b"a" + SENT + b"b" + SENT]
 SENT_START = [SENT, SENT + b" TREE", SENT + b"x", SENT + b" " + SENT]
 NAMES = ["f", "file.txt", "sp ace", "d/g.c", "d/e/README", "f.THIS", "x.BASE"]
 SUFFIXES = (".BASE", ".THIS", ".OTHER")
+KEEP = "keep-me"  # the file the common ancestor holds when the merged file is added on both sides
 
 
 # ---------------------------------------------------------------- generation
@@ -221,8 +222,8 @@ def _build(ctx, fmt, name, B, T, O, cherry, uncommitted, added_both=False):
         os.makedirs(os.path.join(first, *parts[:i]), exist_ok=True)
     adds = ["/".join(parts[:i]) for i in range(1, len(parts) + 1)]
     if added_both:
-        _write(wt, "keep-me", b"keep\n")
-        wt.add(["keep-me"] + adds[:-1])
+        _write(wt, KEEP, b"keep\n")
+        wt.add([KEEP] + adds[:-1])
         _commit(wt, "first", 0, git)
         odir = os.path.join(root, "other")
         wt.branch.controldir.sprout(odir)
@@ -338,7 +339,7 @@ def _judge_resolve(ctx, cdir, name, action, via, want, fid, detail, keyf, drop=N
         ctx.check(wt.is_versioned(name), keyf("resolve:%s:file-unversioned" % action), "file no longer versioned after %s" % action, d)
         if fid is not None and wt.is_versioned(name):
             ctx.check(wt.path2id(name) == fid, keyf("resolve:%s:file-id-changed" % action), "file id changed: %r -> %r" % (fid, wt.path2id(name)), d)
-    extra = sorted(p for p in disk if p != name and not name.startswith(p + "/"))
+    extra = sorted(p for p in disk if p != name and not name.startswith(p + "/") and p != KEEP)
     ctx.check(not extra, keyf("resolve:%s:stray-files" % action), "unexpected files after %s: %r" % (action, extra), d)
 
 
@@ -476,7 +477,7 @@ def case(ctx):
         elif not texts:
             ctx.count("clean_no_helpers")
             ctx.check(not helpers, keyf("helpers-without-conflict"), "helper files after a clean merge: %r" % (sorted(helpers),), detail)
-        stray = sorted(p for p in disk if p != name and not name.startswith(p + "/") and p not in [name + s for s in SUFFIXES])
+        stray = sorted(p for p in disk if p != name and not name.startswith(p + "/") and p not in [name + s for s in SUFFIXES] and p != KEEP)
         ctx.check(not stray, keyf("stray-files"), "unexpected files after the merge: %r" % (stray,), detail)
         ctx.note(sig, nontrivial=needs_text_merge,
                  sample=dict(detail, conflict=bool(texts), file=got[1].decode("latin-1")) if (texts and n == 0) else None)
